@@ -307,12 +307,12 @@ end Passes
 
 /-! ### list facts about the two iteration orders -/
 
-theorem reverse_flatten_perm {β : Type} (L : List (List β)) : List.Perm L.reverse.flatten L.flatten := by
-  induction L with
-  | nil => simp
-  | cons a L ih =>
-    simp only [List.reverse_cons, List.flatten_append, List.flatten_cons, List.flatten_nil, List.append_nil]
-    exact (List.perm_append_comm).trans (List.Perm.append_left a ih)
+/-- the second sweep visits the updaters in exactly the reverse order of the first. -/
+theorem sweep2_eq {β : Type} (L : List (List β)) : sweep2 L = L.flatten.reverse := by
+  simp [sweep2, List.reverse_flatten, List.map_reverse]
+
+theorem reverse_flatten_perm {β : Type} (L : List (List β)) : List.Perm (sweep2 L) L.flatten := by
+  rw [sweep2_eq]; exact List.reverse_perm _
 
 theorem nodes_perm {l l' : List (Upd α)} (h : List.Perm l l') : List.Perm (nodes l) (nodes l') :=
   List.Perm.map _ h
